@@ -189,6 +189,11 @@ func C14(r *Run) {
 		}
 	}
 	// environment values reach a byte-level codec exactly as they are, "$" characters included
+	// characters that some JSON encoders escape and others do not
+	for _, f := range []string{"json", "json-pretty", "jsonl", "yaml"} {
+		doc := map[string]any{"out": map[string]any{"$encode": f, "$value": map[string]any{"url": "http://h/?a=1&b=2", "cmp": "a<b>c", "k&<>": []any{"&&", "</script>"}}}}
+		sessions = append(sessions, Sess{Lines: [][]byte{evalEvent([]any{doc}, nil, nil, nil, "characters an encoder may escape")}})
+	}
 	for _, ev := range []string{"a$b", "pa$$word", "x$", "plain", "a $b c$"} {
 		env := map[string]string{"BKLV_V1": ev}
 		sum := sha256.Sum256([]byte(ev))
